@@ -6,4 +6,4 @@ import sys
 sys.path.insert(0, os.path.dirname(os.path.abspath(__file__)))
 import skel_c15  # noqa: E402
 
-KERNELS = {'FrontendSkel': skel_c15.generate}
+KERNELS = {'FrontendSkel': skel_c15.generate, 'DriverScan': skel_c15.generate_drivers}
